@@ -146,6 +146,75 @@ func matchViaAllow(pattern, name string) bool {
 	return intoto.VerifyArtifacts(items, md) == nil
 }
 
+// c17SameName: an artifact that is spelled exactly like the pattern of a rule is an artifact like any
+// other - the pattern stays a pattern. Products {<pattern as a name>, <another name>} under
+//   ALLOW <pattern>; DISALLOW <the other name>      accepted iff the pattern matches the other name
+//   ALLOW <pattern>; DISALLOW *                     accepted iff it matches both names
+//   DISALLOW <pattern>; ALLOW *   on {<pattern>}    accepted iff it does not match its own spelling
+// for a catalogue of patterns with wildcards, classes, escapes and malformed ones, and for token-based
+// random patterns.
+func c17SameName(c *core.Ctx, letters []string) {
+	pats := []string{"a?c", "*", "?", "**", "*.log", "build[1].log", "[a-c]", "[abc]bc", "[", "x[", "dir\\", "a\\*b", "\\*", "[^a]", "[!a]bc", "a[", "[]", "[]a]", "ab]", "a\\", "report[final].txt", "lib?.so", "??", "a*c", "[a", "\\[a\\]"}
+	n := c.Pick(3000, 60000)
+	for i := 0; i < n; i++ {
+		r := c.Rand("samename", i)
+		p, _ := tokenPattern(r, letters)
+		pats = append(pats, p)
+	}
+	h := intoto.HashObj{"sha256": "aa"}
+	run := func(products []string, rules [][]string) bool {
+		prods := map[string]intoto.HashObj{}
+		for _, p := range products {
+			prods[p] = h
+		}
+		items := []interface{}{intoto.Step{Type: "step", SupplyChainItem: intoto.SupplyChainItem{Name: "s", ExpectedProducts: rules}}}
+		md := map[string]intoto.Metadata{"s": &intoto.Metablock{Signed: intoto.Link{Type: "link", Name: "s", Products: prods}}}
+		return intoto.VerifyArtifacts(items, md) == nil
+	}
+	observed := int64(0)
+	for i, pat := range pats {
+		if !c.Mine(i) || pat == "" || path.Clean(pat) != pat {
+			continue
+		}
+		id := fmt.Sprintf("same-name:%q", pat)
+		if !c.Want(id) {
+			continue
+		}
+		pp := ref.ParseGlob(pat)
+		if pp.Abstain {
+			continue
+		}
+		c.Guard(id, "VerifyArtifacts(artifact named like the pattern)", map[string]any{"pattern": pat}, func() {
+			for _, other := range []string{"abc", "b", "evil.sh", "build1.log", "libz.so"} {
+				if other == pat {
+					continue
+				}
+				got := run([]string{pat, other}, [][]string{{"ALLOW", pat}, {"DISALLOW", other}})
+				c.Eval(1)
+				if want := pp.Match(other); got != want {
+					c.Violation(fmt.Sprintf("glob disagreement when an artifact is named like the pattern: other artifact consumed=%v reference match=%v", got, want), id, map[string]any{"pattern": pat, "artifacts": []string{pat, other}, "rules": "ALLOW <pattern>; DISALLOW <other>"})
+					return
+				}
+				got = run([]string{pat, other}, [][]string{{"ALLOW", pat}, {"DISALLOW", "*"}})
+				c.Eval(1)
+				if want := pp.Match(other) && pp.Match(pat); got != want {
+					c.Violation(fmt.Sprintf("glob disagreement when an artifact is named like the pattern: both consumed=%v reference=%v", got, want), id, map[string]any{"pattern": pat, "artifacts": []string{pat, other}, "rules": "ALLOW <pattern>; DISALLOW *"})
+					return
+				}
+			}
+			got := run([]string{pat}, [][]string{{"DISALLOW", pat}, {"ALLOW", "*"}})
+			c.Eval(1)
+			if want := !pp.Match(pat); got != want {
+				c.Violation(fmt.Sprintf("glob disagreement when an artifact is named like the pattern: DISALLOW <pattern> lets it pass=%v reference=%v", got, want), id, map[string]any{"pattern": pat})
+				return
+			}
+			observed++
+		})
+		c.Class("same-name", pat)
+	}
+	c.Obs("patterns_observed_with_an_artifact_of_the_same_spelling", observed)
+}
+
 func runC17(c *core.Ctx) {
 	patAlpha := []string{"a", "b", "/", "*", "?", "[", "]", "^", "-", "\\", "!"}
 	nameAlpha := []string{"a", "b", "/", "-", "]", "!", "\\"}
@@ -372,6 +441,7 @@ func runC17(c *core.Ctx) {
 	}
 	c.Obs("token_pairs_reference_match", tmatched)
 	c.Obs("pairs_also_observed_through_MATCH_rule", viaRule)
+	c17SameName(c, letters)
 	// replay of an enumerated pair
 	if c.Only != "" && len(c.Only) > 5 && c.Only[:5] == "pair:" {
 		var pat, name string
@@ -387,7 +457,7 @@ func init() {
 	core.Register(&core.Property{
 		ID:    "C17",
 		Level: "exploration",
-		Rule: "exhaustive: every pattern of length<=4 (quick) / <=6 (thorough) over {a b / * ? [ ] ^ - \\ !} x every name of length<=4 / <=5 over {a b / - ] ! \\} (thorough: '!' only up to pattern length 5, '!' and '\\' only up to name length 4), plus seeded random ASCII and valid-UTF-8 patterns<=24 / names<=40 (half of the names derived from the pattern so that matches are frequent), plus token-based random patterns (1-7 tokens from {literal, *, ?, class, negated class, range, escape} with a name derived from them; a third of these pairs is also observed through the MATCH rule of VerifyArtifacts (without and with a source prefix) and through ALLOW rules that use the pattern in both rule lists of one item); " +
+		Rule: "artifacts spelled exactly like the pattern of a rule (26 catalogue patterns with wildcards, classes, escapes, malformed ones + 3000 / 60000 token-based random ones; ALLOW / DISALLOW over the artifact and a second one); exhaustive: every pattern of length<=4 (quick) / <=6 (thorough) over {a b / * ? [ ] ^ - \\ !} x every name of length<=4 / <=5 over {a b / - ] ! \\} (thorough: '!' only up to pattern length 5, '!' and '\\' only up to name length 4), plus seeded random ASCII and valid-UTF-8 patterns<=24 / names<=40 (half of the names derived from the pattern so that matches are frequent), plus token-based random patterns (1-7 tokens from {literal, *, ?, class, negated class, range, escape} with a name derived from them; a third of these pairs is also observed through the MATCH rule of VerifyArtifacts (without and with a source prefix) and through ALLOW rules that use the pattern in both rule lists of one item); " +
 			"observation = len(NewSet(name).Filter(pattern))==1, oracle = reference matcher written from the documented grammar; non-trivial = the pattern contains a metacharacter; distinct = enumerated pairs are distinct by construction, random pairs by hash of (pattern,name)",
 		Assumptions: []string{
 			"the reference matcher encodes the documented grammar; a negated class containing a reversed range ([^b-a]) is not judged (counted as inconclusive)",
